@@ -250,6 +250,7 @@ def build(tier):
                 {"lines": 2, "payload_atoms_max": 1, "modes": ["one-chunk", "two-chunks", "asyncio"],
                  "second_line": "value request or internal config/time/id request"},
                 goals=["compared"], timeout_ms=30000,
+                expected_cuts=["explicit digits of an integer with more than"],
                 doc="state and ordered emissions are the same for all arrival modes / flavours"),
     ]
     return {
